@@ -1,5 +1,5 @@
 /- C04 — Every request gets exactly one outcome (handler model). -/
-import Discv5Model.Model.HandlerSpec
+import Discv5Model.Proofs.HandlerRequests
 namespace Discv5.H
 
 /-- External request ids are tracked at most once (no duplicates among active + queued). -/
@@ -41,8 +41,8 @@ theorem every_request_accounted (c : Cfg) (evs : List Ev) (h : AppDiscipline c e
   sorry
 
 /-- Never neither, part 2 (invariant): a queued request always has a live timer behind it. -/
-theorem pending_has_releaser (c : Cfg) (evs : List Ev) : PendingHasReleaser (run c evs) := by
-  sorry
+theorem pending_has_releaser (c : Cfg) (evs : List Ev) : PendingHasReleaser (run c evs) :=
+  pending_has_releaser' c evs
 
 /-- Never neither, part 3: once all timers have fired (no active request, no active challenge)
 nothing is queued any more, hence every submitted request has had an outcome. -/
@@ -55,13 +55,13 @@ theorem quiescent_complete (c : Cfg) (evs : List Ev) (h : AppDiscipline c evs)
 /-- A request call is put on the wire at most `request_retries` times with the same packet:
 the retry counter never exceeds the configured number. -/
 theorem retries_bounded (c : Cfg) (evs : List Ev) (hr : 1 ≤ c.requestRetries) :
-    ∀ call ∈ (run c evs).active, call.retries ≤ c.requestRetries := by
-  sorry
+    ∀ call ∈ (run c evs).active, call.retries ≤ c.requestRetries :=
+  retries_bounded' c evs hr
 
 /-- A timeout is only ever reported while time passes (a timer firing), never in reaction to a
 datagram or an application call. -/
 theorem timeout_only_from_timer (c : Cfg) (s : HState) (e : Ev) (rid : Nat)
-    (h : Out.failed rid .timeout ∈ (step c s e).2) : ∃ dt, e = .adv dt := by
-  sorry
+    (h : Out.failed rid .timeout ∈ (step c s e).2) : ∃ dt, e = .adv dt :=
+  timeout_only_from_timer' c s e rid h
 
 end Discv5.H
